@@ -185,6 +185,17 @@ def _selftests(ctx, case_file):
   return len(muts)
 
 
+def _unpack(groups):
+  """MC_Ident writes its input space grouped by request; one input per avoid set of a group."""
+  out = []
+  for g in list(groups["singles"]) + [g for per_arity in groups["lists"] for g in per_arity]:
+    if len(g["avoids"]) != len(g["refs"]):
+      raise tlc.MachineryError("malformed group in the enumerated input space: %r" % (g,))
+    for avoid, ref in zip(g["avoids"], g["refs"]):
+      out.append({"fn": g["fn"], "reqs": g["reqs"], "avoid": avoid, "ref": ref})
+  return out
+
+
 def run(ctx):
   consts = get_consts(ctx.workdir)
   stale = check_blocks(consts)
@@ -193,14 +204,18 @@ def run(ctx):
                              "of checks/C21.py: run `python3 checks/C21.py --regen` and review"
                              % (stale, corpus.PY, consts["version"]))
   cfg = "MC_Ident_%s.cfg" % ctx.tier
-  inputs, model = fnspec.enumerate_inputs("MC_Ident", cfg, ctx.workdir, timeout=3600)
+  # one TLC worker: initial states are generated by the main thread anyway, and TLC evaluates every
+  # constant definition once per worker
+  groups, model = fnspec.enumerate_inputs("MC_Ident", cfg, ctx.workdir, timeout=3600, workers=1)
+  inputs = _unpack(groups)
   ctx.log("TLC enumerated %d inputs (%d distinct states) in %.1fs" % (len(inputs), model["distinct"], model["wall"]))
   if len(inputs) != model["distinct"]:
     raise tlc.MachineryError("input file has %d inputs, TLC found %d states" % (len(inputs), model["distinct"]))
-  files = fnspec.run_cases(WORKER, inputs, ctx.workdir, nshards=16)
-  n_hyp = 150 if ctx.quick else 2000
-  hyp_seeds = [ctx.seed * 1000 + k for k in range(16)]
-  hyp_files = fnspec.run_cases(WORKER, hyp_seeds, ctx.workdir, nshards=16, tag="hyp",
+  nsh = 8 if ctx.quick else 16     # 2 x nsh judge JVMs
+  files = fnspec.run_cases(WORKER, inputs, ctx.workdir, nshards=nsh)
+  n_hyp = 150 if ctx.quick else 4000
+  hyp_seeds = [ctx.seed * 1000 + k for k in range(16)]   # every run: 16 seeds x n_hyp examples
+  hyp_files = fnspec.run_cases(WORKER, hyp_seeds, ctx.workdir, nshards=nsh, tag="hyp",
                                extra={"mode": "hyp", "n": n_hyp})
   failures, n, wall = fnspec.judge("Trace_Ident", files + hyp_files, ctx.workdir)
   ctx.log("Trace_Ident judged %d cases in %.1fs" % (n, wall))
